@@ -312,6 +312,9 @@ type NetOpts struct {
 	ShortRead   int // permille: deliver fewer bytes than available
 	ReadExpiry  int // permille: let a read deadline pass although data may follow
 	ShortWrite  int // permille: accept a prefix, then time out (needs a deadline)
+	// ShortWriteProgress: short writes always accept at least one byte, so
+	// that the writer has to continue and the connection stays usable
+	ShortWriteProgress bool
 	WriteBreak  int // permille: accept a prefix, then fail hard
 	DialFail    int // permille
 	DialHang    int // permille (needs a deadline on the context)
@@ -414,7 +417,7 @@ func (s *Sim) writeAction(p *park) Action {
 			return
 		}
 		n := len(op.p)
-		if w.FaultOK() && !c.wdl.IsZero() && w.Tape.Flip("wshort", o.ShortWrite) {
+		if w.FaultOK() && !c.wdl.IsZero() && (!o.ShortWriteProgress || n >= 2) && w.Tape.Flip("wshort", o.ShortWrite) {
 			// a prefix is accepted, then the deadline passes
 			k := w.Tape.Draw("wk", n+1) // 0..n; n means everything but reported late is not possible: cap n-1
 			if k >= n {
@@ -422,6 +425,9 @@ func (s *Sim) writeAction(p *park) Action {
 			}
 			if k < 0 {
 				k = 0
+			}
+			if o.ShortWriteProgress && k == 0 {
+				k = 1
 			}
 			w.Fault("short_write_timeout")
 			c.credit(op.p[:k])
